@@ -46,6 +46,8 @@ def config_strategy():
             "seed": st.integers(0, 2**32 - 1),
             "keylen": st.one_of(st.integers(2, 256), st.sampled_from([2, 3, 4, 15, 16, 31, 32, 64, 128, 255, 256])),
             "key_printable": st.booleans(),
+            # structure inside the key: a border (prefix == suffix, e.g. "host-…-host"), a repeated unit, almost periodic
+            "key_shape": st.one_of(st.just(["random"]), st.tuples(st.sampled_from(["border", "periodic", "near_periodic"]), st.integers(1, 64)).map(list)),
             "options": st.lists(st.sampled_from([G.GUARD_USER, G.GUARD_COMPUTER, G.GUARD_DOMAIN, G.GUARD_LOCAL_IP]), min_size=1, max_size=4, unique=True),
             "optvals": st.lists(st.integers(0, 0xFFFF), min_size=4, max_size=4),
             # any position: small, arbitrary, and such that the config start / the config-guard boundary (the marker)
@@ -94,6 +96,15 @@ def execute(case, stats):
         key = bytes(rnd.choice(b"abcdefghijklmnopqrstuvwxyz0123456789-") for _ in range(K))
     else:
         key = rnd.randbytes(K)
+    shape = case.get("key_shape") or ["random"]
+    if shape[0] == "border":
+        b = max(1, min(shape[1], K // 2))
+        key = key[: K - b] + key[:b]
+    elif shape[0] in ("periodic", "near_periodic"):
+        unit = key[: max(2, min(shape[1], K))]
+        key = (unit * (K // len(unit) + 1))[:K]
+        if shape[0] == "near_periodic":
+            key = key[:-1] + bytes([key[-1] ^ 0x15])
     if len(set(G.keystream(key, 7))) == 1:
         raise Discard("constant key stream over the header")
     if b"\x00" in key and K <= 4:
@@ -174,7 +185,7 @@ def execute(case, stats):
     stats.note(
         case,
         (K != 15 and len(options) >= 2) or fault is not None,
-        classes=["marker_near_8k_boundary" if (off + G.CONFIG_SIZE) % 8192 < 16 or (off + G.CONFIG_SIZE) % 8192 > 8176 else "marker_elsewhere", "keylen_%s" % ("2-8" if K <= 8 else "9-32" if K <= 32 else "33-128" if K <= 128 else "129-256"), "container_" + container, "fault_" + str(fault), "options%d" % len(options), "first_option_%d" % options[0][0]],
+        classes=["marker_near_8k_boundary" if (off + G.CONFIG_SIZE) % 8192 < 16 or (off + G.CONFIG_SIZE) % 8192 > 8176 else "marker_elsewhere", "keylen_%s" % ("2-8" if K <= 8 else "9-32" if K <= 32 else "33-128" if K <= 128 else "129-256"), "container_" + container, "key_" + shape[0], "fault_" + str(fault), "options%d" % len(options), "first_option_%d" % options[0][0]],
     )
 
 
